@@ -5,6 +5,7 @@ import TantivyModel.Proofs.GrammarChars
 import TantivyModel.Proofs.GrammarPhrase
 import TantivyModel.Proofs.GrammarCharsPrint
 import TantivyModel.Proofs.GrammarCharsPrintList
+import TantivyModel.Proofs.GrammarCharsNested
 import TantivyModel.Model.Grammar.Agree
 /-!
 # C16 — The query parser is total and implements its documented grammar
@@ -295,8 +296,9 @@ theorem C16_strict_panic_witness :
    each matcher: `wordRest`, `word`, `fieldName`, `range`, `set`, `exists_`, `regex`, `simpleTerm`,
    `plainLiteral`, `pLeaf`, `pOccurLeaf`, `pAst`, for every fuel ≥ 3); (2) the documented concrete
    forms below as kernel-checked evaluations; (3) operand lists of plain words with markers and
-   AND/OR for every layout choice (`C16_print_parse_operands`, by induction). Still open: nested
-   groups (parentheses), field prefixes, quoted phrases, ranges, sets and boosts inside the ∀ form. -/
+   AND/OR for every layout choice (`C16_print_parse_operands`, by induction). (4) nested parenthesised lists to any
+   depth (`C16_print_parse_nested`). Still open: field prefixes, quoted phrases, ranges, sets, boosts
+   and `NOT` inside the ∀ form, escapes. -/
 /-- **print/parse at leaf level, for all words**: the strict parser (with or without the guard)
     reads a word of ASCII letters and digits that is not `OR`/`AND`/`NOT`/`IN` as the unfielded,
     unquoted literal with exactly that text -/
@@ -314,15 +316,52 @@ example : PlainWord ['a', 'b', 'c'] := plainWord_abc
     `C16_precedence_markers`), followed by `rewrite_ast`. By induction over the operand list, on
     step lemmas for each matcher with a remainder (`Proofs/GrammarCharsRem.lean`). -/
 theorem C16_print_parse_operands (guard : Bool) (lead : Nat) (occ : Option Occur) (w : Str)
-    (more : List PItem) (k : Nat) (hw : PlainWord w) (hm : ∀ it ∈ more, PlainWord it.word) :
+    (more : List PItem) (k : Nat) (hw : PlainWord w)
+    (hm : ∀ it ∈ more, ∃ wi, it.opd = wordOpd wi ∧ PlainWord wi) :
     ∃ t, strictAst (normOcc occ, leafOf w) (more.map itemOf) = .ok t
-      ∧ parseStrictWith guard (printList lead occ w more k) = .tree (rewrite t) :=
-  parseStrictWith_print guard lead occ w more k hw hm
+      ∧ parseStrictWith guard (printList lead occ (wordOpd w) more k []) = .tree (rewrite t) := by
+  refine ⟨listTree occ (wordOpd w) more, listTree_eq occ (wordOpd w) more, ?_⟩
+  refine parseStrictWith_printList guard lead occ (wordOpd w) more k (.word w hw) ?_
+  intro it hi
+  obtain ⟨wi, he, hwi⟩ := hm it hi
+  rw [he]
+  exact .word wi hwi
 
 /-- ` a   AND b OR  -c ` is such a text -/
-example : printList 1 none ['a'] [⟨some .and, none, ['b'], 2, 0⟩, ⟨some .or, some .mustNot, ['c'], 0, 1⟩] 1
+example : printList 1 none (wordOpd ['a'])
+      [⟨some .and, none, wordOpd ['b'], 2, 0⟩, ⟨some .or, some .mustNot, wordOpd ['c'], 0, 1⟩] 1 []
     = [' ', 'a', ' ', ' ', ' ', 'A', 'N', 'D', ' ', 'b', ' ', 'O', 'R', ' ', ' ', '-', 'c', ' '] := by decide
 example : PlainWord ['b'] ∧ PlainWord ['c'] := ⟨⟨by simp, by decide, by decide⟩, ⟨by simp, by decide, by decide⟩⟩
+
+/-- **print/parse for the nested fragment** (`WFOpd`: plain words and parenthesised operand lists
+    of well-formed operands, to any depth, each list with `+`/`-` markers, `AND `/`OR ` and any
+    layout): the strict parser reads the printed text as the tree the printer's structure denotes —
+    at every level the fold (`strictAst`, see `C16_listTree_is_fold`) of the operands' trees —
+    followed by `rewrite_ast`. By induction on the well-formedness derivation; a parenthesised list
+    is handled by the same list theorem with `)` as the remaining input. -/
+theorem C16_print_parse_nested (guard : Bool) (lead : Nat) (occ : Option Occur) (o : Opd)
+    (more : List PItem) (k : Nat) (ho : WFOpd o) (hm : ∀ it ∈ more, WFOpd it.opd) :
+    parseStrictWith guard (printList lead occ o more k []) = .tree (rewrite (listTree occ o more)) :=
+  parseStrictWith_printList guard lead occ o more k ho hm
+
+/-- the tree of a printed list is the strict fold of the operands' trees (the subject of the
+    fold-layer theorems) -/
+theorem C16_listTree_is_fold (occ : Option Occur) (o : Opd) (more : List PItem) :
+    strictAst (normOcc occ, o.leaf) (more.map itemOf) = .ok (listTree occ o more) :=
+  listTree_eq occ o more
+
+/-- `a ( b OR -c)  AND d` is such a text, with the tree `(?a ?(+(?b ?(-c)) +d))` before `rewrite_ast` -/
+example :
+    let grp := groupOpd 1 none (wordOpd ['b']) [⟨some .or, some .mustNot, wordOpd ['c'], 0, 0⟩] 0
+    printList 0 none (wordOpd ['a']) [⟨none, none, grp, 0, 0⟩, ⟨some .and, none, wordOpd ['d'], 1, 0⟩] 0 []
+      = ['a', ' ', '(', ' ', 'b', ' ', 'O', 'R', ' ', '-', 'c', ')', ' ', ' ', 'A', 'N', 'D', ' ', 'd']
+    ∧ WFOpd grp := by
+  refine ⟨by decide, ?_⟩
+  refine .group 1 none _ _ 0 (.word _ ⟨by simp, by decide, by decide⟩) ?_
+  intro it hi
+  simp only [List.mem_singleton] at hi
+  subst hi
+  exact .word _ ⟨by simp, by decide, by decide⟩
 
 /-- `C16_print_parse_partial`: the documented forms parse to the documented trees -/
 theorem C16_print_parse_partial :
